@@ -42,4 +42,9 @@ def runCtxPair (c : Case) : String := s!"res {c.id} bad=0 term=ok"
     factory_state_rows, buildtime_rows over the regenerated tables). -/
 def runLateUse (c : Case) : String := s!"res {c.id} ok=1 why=-"
 
+/-- `kind=tdwait` (C06; go/harness/tdwait.go): a stream that ends by itself runs its teardowns OUTSIDE the producer lock, so a
+    teardown that stops a second producer of the same subscriber and waits until it has left returns, Wait returns and nothing
+    hangs (RoProps/C06lock.regenerated_teardowns_outside_mu over the regenerated subscriber programs; C06.kernel_only_wait_waits). -/
+def runTdWait (c : Case) : String := s!"res {c.id} hang=0 wait=returned term={c.getD "end" "C"}"
+
 end Ro.Driver.Drivers.Cancel
